@@ -66,11 +66,21 @@ type Job struct {
 	Args     map[string]int `json:"args,omitempty"`
 }
 
-func verifDir() string {
-	if d := os.Getenv("VERIF_DIR"); d != "" {
+func verifDir() string { return "/verif" }
+
+// outDir is where evidence and replay files go (VERIF_OUT overrides it for runs against scratch trees).
+func outDir() string {
+	if d := os.Getenv("VERIF_OUT"); d != "" {
 		return d
 	}
-	return "/verif"
+	return verifDir()
+}
+
+func repoDir() string {
+	if d := os.Getenv("VERIF_REPO"); d != "" {
+		return d
+	}
+	return "/repo"
 }
 
 func main() {
@@ -152,6 +162,9 @@ var customJobs = map[string]func(*Job, time.Duration) *Result{}
 func runJobs(jobs []*Job, par int, hard time.Time) []*Result {
 	if par <= 0 {
 		par = runtime.NumCPU()
+		if p, _ := strconv.Atoi(os.Getenv("VERIF_PAR")); p > 0 {
+			par = p
+		}
 	}
 	res := make([]*Result, len(jobs))
 	sem := make(chan struct{}, par)
@@ -246,9 +259,9 @@ type Evidence struct {
 }
 
 func writeEvidence(ev *Evidence) {
-	os.MkdirAll(verifDir()+"/evidence", 0o755)
+	os.MkdirAll(outDir()+"/evidence", 0o755)
 	b, _ := json.MarshalIndent(ev, "", " ")
-	if err := os.WriteFile(verifDir()+"/evidence/"+ev.PropertyID+".json", append(b, '\n'), 0o644); err != nil {
+	if err := os.WriteFile(outDir()+"/evidence/"+ev.PropertyID+".json", append(b, '\n'), 0o644); err != nil {
 		fmt.Fprintln(os.Stderr, "evidence:", err)
 		os.Exit(2)
 	}
@@ -430,9 +443,9 @@ func checkMain(id, tier string) int {
 }
 
 func writeReplay(id string, f *Found) string {
-	os.MkdirAll(verifDir()+"/replays", 0o755)
+	os.MkdirAll(outDir()+"/replays", 0o755)
 	b, _ := json.MarshalIndent(f, "", " ")
-	name := fmt.Sprintf("%s/replays/%s-%08x.json", verifDir(), id, uint32(fnvStr(f.Key+f.Scenario.Name)))
+	name := fmt.Sprintf("%s/replays/%s-%08x.json", outDir(), id, uint32(fnvStr(f.Key+f.Scenario.Name)))
 	os.WriteFile(name, append(b, '\n'), 0o644)
 	return name
 }
@@ -485,3 +498,11 @@ func traceMain(args []string) {
 		fmt.Println("VIOL", v)
 	}
 }
+
+func writeJSON(path string, v any) {
+	os.MkdirAll(outDir()+"/replays", 0o755)
+	b, _ := json.MarshalIndent(v, "", " ")
+	os.WriteFile(path, append(b, '\n'), 0o644)
+}
+
+func logw() *os.File { return os.Stderr }
